@@ -1521,11 +1521,18 @@ Ltac nd_st :=
 
 Ltac nd_step :=
   first
-    [ assumption
-    | exact I
-    | apply NDR_ok | apply NDR_stop | apply NDR_sn_send | apply NDR_sn_send_owned | apply NDR_sn_send_now
-    | apply NDR_mq_send | apply NDR_send_all
-    | apply NDR_andthen; [|intros ? ?]
+    [ match goal with |- ND _ => assumption end
+    | match goal with |- True => exact I end
+    | match goal with
+      | |- NDR (ok _ _) => apply NDR_ok
+      | |- NDR (stop _ _ _) => apply NDR_stop
+      | |- NDR (sn_send _ _) => apply NDR_sn_send
+      | |- NDR (sn_send_owned _ _ _) => apply NDR_sn_send_owned
+      | |- NDR (sn_send_now _ _) => apply NDR_sn_send_now
+      | |- NDR (mq_send _ _) => apply NDR_mq_send
+      | |- NDR (send_all _ _) => apply NDR_send_all
+      | |- NDR (andthen _ _) => apply NDR_andthen; [|intros ? ?]
+      end
     | nd_st
     | match goal with |- NDR (match ?x with _ => _ end) => destruct x eqn:? end
     | match goal with |- NDR (if ?x then _ else _) => destruct x eqn:? end
@@ -1618,6 +1625,9 @@ Proof.
     first [apply handle_broker_publish_nd', H | apply bp_proceed_nd', H].
 Qed.
 
+Lemma sn_send_owned_gw_st s ow p : gw_st (st_of (sn_send_owned s ow p)) = gw_st s.
+Proof. unfold sn_send_owned. destruct (gw_st s) eqn:E; try destruct (len (pack p) <=? MaxPacketLen); cbn; congruence. Qed.
+
 Lemma fire_nd' cfg s k : ND s -> NDR (fire cfg s k).
 Proof.
   intros H. unfold fire. destruct k as [g|g|g|p|p]; [nd_auto|nd_auto| |nd_auto|nd_auto].
@@ -1627,7 +1637,9 @@ Proof.
   destruct data as [p|k m]; [|nd_auto].
   match goal with |- context [sn_send_owned ?a ?b ?c] =>
     assert (X : NDR (sn_send_owned a b c)) by (apply NDR_sn_send_owned; nd_auto);
-    destruct (sn_send_owned a b c) as [[s1 o] [|e]] end; [exact X|exact I].
+    pose proof (sn_send_owned_gw_st a b c) as Y;
+    destruct (sn_send_owned a b c) as [[s1 o] [|e]] end; [exact X|].
+  apply NDR_ok, ND_finish_obj. unfold st_of in Y. cbn [fst] in Y. eapply ND_same; [exact Y|]. nd_auto.
 Qed.
 
 Lemma running_false_ending s te : gw_ending s = Some te -> running s = false.
@@ -1688,3 +1700,423 @@ Proof.
     intros Hr. eapply ND_same; [|apply Hrt]; [reflexivity|]. exact Hr.
   - destruct (gw_ending s); [intros _; exact Hc|]. apply finish_r_nd. exact I.
 Qed.
+
+(* ================================================================== what a decoded PUBLISH carries *)
+
+Definition dec6 (p : packet) : Prop :=
+  match p with Publish _ _ _ _ tid _ _ => tid < 65536 | _ => True end.
+
+Lemma unpack_body_dec6 t buf p : wf_bytes buf -> unpack_body t buf = Ok p -> dec6 p.
+Proof.
+  unfold unpack_body.
+  repeat (match goal with |- _ -> (if ?c then _ else _) = _ -> _ => destruct c end).
+  all: try (intros _ H; discriminate H).
+  all: match goal with |- _ -> ?f _ = Ok _ -> _ =>
+         unfold f; intros Hb H; inv_unpack H; injection H as <-;
+         first [exact I | cbn [dec6]; eapply get16_lt; eassumption] end.
+Qed.
+
+Lemma read_dgram_dec6 dg p : wf_bytes dg -> read_dgram dg = Ok p -> dec6 p.
+Proof.
+  unfold read_dgram, read_packet. set (raw := firstn _ dg). intros Hwf H.
+  assert (Hraw : wf_bytes raw) by (apply Forall_take, Hwf).
+  destruct (header_unpack raw) as [h|e|ps]; cbn [obind] in H; try discriminate H.
+  destruct (negb (known_type (h_type h))); try discriminate H.
+  unfold slice_from in H.
+  destruct (Nat.leb (encoded_header_length raw) (length raw)); cbn [obind] in H; try discriminate H.
+  eapply unpack_body_dec6; [|exact H]. apply Forall_drop, Hraw.
+Qed.
+
+(* ================================================================== one client packet *)
+
+Definition SnSum (cfg : gw_cfg) (s : gw_state) (p : packet) (r : R) : Prop :=
+  W (st_of r) /\
+  (forall i u, CP s i u -> ~ In i (MQ (outs_of r) ≫= cstart) -> CP (st_of r) i u) /\
+  (forall i u, CS s i u -> ~ In i (MQ (outs_of r) ≫= cstart) -> CS (st_of r) i u) /\
+  (forall i q u, BP cfg s i q u -> ~ In i (MQ (outs_of r) ≫= cstart) ->
+     (forall a c, p <> Puback a i c) -> p <> Pubrec i -> BP cfg (st_of r) i q u) /\
+  (forall a b c i e, In (MqPublish a 1 b c i e) (MQ (outs_of r)) -> CP (st_of r) i (gw_now s + retry_delay cfg)) /\
+  (forall i d fs, In (MqSubscribe i d fs) (MQ (outs_of r)) -> CS (st_of r) i (gw_now s + retry_delay cfg)).
+
+Lemma SnSum_quiet cfg s p r : W s -> FWR X0 s r -> all_mq quiet (outs_of r) -> SnSum cfg s p r.
+Proof.
+  intros HW HF Hq. destruct (HF HW) as [HW' HFR]. split; [exact HW'|]. split; [|split; [|split; [|split]]].
+  - intros i u HC _. eapply CP_FR; [exact HFR|exact HC|intros g _ []].
+  - intros i u HC _. eapply CS_FR; [exact HFR|exact HC|intros g _ []].
+  - intros i q u HC _ _ _. eapply BP_FR; [exact HFR|exact HC|intros g _ []].
+  - intros a b c i e Hin. pose proof (quiet_MQ _ _ Hq Hin) as Hc. discriminate Hc.
+  - intros i d fs Hin. pose proof (quiet_MQ _ _ Hq Hin) as Hc. discriminate Hc.
+Qed.
+
+Lemma bind1 {A B} (f : A -> list B) (x : A) : [x] ≫= f = f x.
+Proof. cbn. apply app_nil_r. Qed.
+
+Lemma bst_cases q : bst q = AwaitPuback \/ bst q = AwaitPubrec.
+Proof. unfold bst. destruct (q =? 1); auto. Qed.
+
+Lemma SnSum_slot cfg s p r mid m0 :
+  W s -> FWR (Xslot mid) s r -> outs_of r = [OutMq (gw_now s) m0] -> cstart m0 = [mid] ->
+  (forall a b c i e, m0 = MqPublish a 1 b c i e -> CP (st_of r) mid (gw_now s + retry_delay cfg)) ->
+  (forall i d fs, m0 = MqSubscribe i d fs -> CS (st_of r) mid (gw_now s + retry_delay cfg)) ->
+  SnSum cfg s p r.
+Proof.
+  intros HW HF Ho Hc HP HS. destruct (HF HW) as [HW' HFR].
+  assert (Hmq : MQ (outs_of r) = [wire m0]) by (rewrite Ho; reflexivity).
+  assert (Hb : MQ (outs_of r) ≫= cstart = [mid]).
+  { rewrite Hmq, bind1, cstart_wire. exact Hc. }
+  assert (Hx : forall i, ~ In i [mid] -> forall g : N, ~ Xslot mid i g).
+  { intros i Hi g Hx. apply Hi. left. symmetry. exact Hx. }
+  split; [exact HW'|]. split; [|split; [|split; [|split]]].
+  - intros i u HC Hn. rewrite Hb in Hn. eapply CP_FR; [exact HFR|exact HC|]. intros g _. apply Hx, Hn.
+  - intros i u HC Hn. rewrite Hb in Hn. eapply CS_FR; [exact HFR|exact HC|]. intros g _. apply Hx, Hn.
+  - intros i q u HC Hn _ _. rewrite Hb in Hn. eapply BP_FR; [exact HFR|exact HC|]. intros g _. apply Hx, Hn.
+  - intros a b c i e Hin. rewrite Hmq in Hin. destruct Hin as [Hin|[]].
+    assert (Hi : cstart (MqPublish a 1 b c i e) = [mid]) by (rewrite <- Hin, cstart_wire; exact Hc).
+    cbn in Hi. injection Hi as ->.
+    destruct m0; cbn in Hin; try discriminate Hin.
+    injection Hin as E1 E2 E3 E4 E5 E6. subst qos. eapply HP. reflexivity.
+  - intros i d fs Hin. rewrite Hmq in Hin. destruct Hin as [Hin|[]].
+    assert (Hi : cstart (MqSubscribe i d fs) = [mid]) by (rewrite <- Hin, cstart_wire; exact Hc).
+    cbn in Hi. injection Hi as ->.
+    destruct m0; cbn in Hin; try discriminate Hin.
+    eapply HS. reflexivity.
+Qed.
+
+Lemma SnSum_ack cfg s p r mid g0 m q0 st d sp n :
+  W s -> sn_ack_mid p = Some mid -> get_by_id s mid = Some (g0, TxBrokerPub m q0 st d sp n) ->
+  sn_ack_st p q0 st -> FWR (Xobj g0) s r -> all_mq quiet (outs_of r) -> SnSum cfg s p r.
+Proof.
+  intros HW Hmid Hg Hst HF Hq. destruct (HF HW) as [HW' HFR]. apply get_by_id_held in Hg.
+  split; [exact HW'|]. split; [|split; [|split; [|split]]].
+  - intros i u HC _. eapply CP_FR; [exact HFR|exact HC|]. intros g Hs Hx. unfold Xobj in Hx. subst g.
+    destruct HC as (g & tid & [H1 H2] & _). destruct Hg as [_ H3]. congruence.
+  - intros i u HC _. eapply CS_FR; [exact HFR|exact HC|]. intros g Hs Hx. unfold Xobj in Hx. subst g.
+    destruct HC as (g & tid & [H1 H2] & _). destruct Hg as [_ H3]. congruence.
+  - intros i q u HC _ Hnp Hnr. eapply BP_FR; [exact HFR|exact HC|]. intros g Hs Hx. unfold Xobj in Hx. subst g.
+    destruct HC as (g & d' & sp' & n' & sq & T & [H1 H2] & _).
+    assert (g = g0) by congruence. subst g.
+    pose proof (W_held_mid s mid g0 _ HW Hg) as Hm1. pose proof (W_held_mid s i g0 _ HW (conj H1 H2)) as Hm2.
+    destruct Hg as [_ H3]. rewrite H2 in H3. injection H3 as <- <- <- <- <- <-.
+    cbn in Hm1. injection Hm1 as <-.
+    destruct p; try discriminate Hmid; cbn in Hmid, Hst; injection Hmid as ->.
+    + destruct (bst_cases q) as [E|E]; rewrite E in Hst; discriminate Hst.
+    + eapply Hnp. reflexivity.
+    + destruct (bst_cases q) as [E|E]; rewrite E in Hst; discriminate Hst.
+    + apply Hnr. reflexivity.
+  - intros a b c i e Hin. pose proof (quiet_MQ _ _ Hq Hin) as Hc. discriminate Hc.
+  - intros i d' fs Hin. pose proof (quiet_MQ _ _ Hq Hin) as Hc. discriminate Hc.
+Qed.
+
+Lemma handle_sn_summary cfg s p : W s -> dec6 p -> SnSum cfg s p (handle_sn cfg s p).
+Proof.
+  intros HW Hd.
+  destruct (sn_ack_mid p) as [mid|] eqn:Ea.
+  - (* acknowledgements *)
+    assert (Hq : all_mq quiet (outs_of (handle_sn cfg s p))) by (apply handle_sn_q; destruct p; try discriminate Ea; exact I).
+    destruct (handle_sn_ack_fw cfg s p mid Ea) as [H|(g & m & q & st & d & sp & n & Hg & Hst & H)].
+    + apply SnSum_quiet; assumption.
+    + eapply SnSum_ack; eassumption.
+  - destruct p; try discriminate Ea;
+      try (apply SnSum_quiet; [exact HW|apply handle_sn_plain_fw; exact I|apply handle_sn_q; exact I]).
+    + (* Publish *)
+      unfold handle_sn. destruct (negb (packet_legal cfg s _));
+        [apply SnSum_quiet; [exact HW|apply FW_refl|apply all_mq_nil]|].
+      cbn [dec6] in Hd.
+      destruct (handle_client_publish_spec cfg s dup qos retain tit tid mid data Hd) as [[H1 H2]|(H1 & H2 & topic & H3)].
+      * apply SnSum_quiet; assumption.
+      * eapply (SnSum_slot cfg s _ _ mid); [exact HW|exact H1|exact H3|reflexivity| |].
+        -- intros. apply H2, HW.
+        -- intros i d fs E. discriminate E.
+    + (* Subscribe *)
+      unfold handle_sn. destruct (negb (packet_legal cfg s _));
+        [apply SnSum_quiet; [exact HW|apply FW_refl|apply all_mq_nil]|].
+      destruct (handle_subscribe_spec cfg s dup qos tit mid tid name) as [[H1 H2]|(H1 & H2 & topic & H3)].
+      * apply SnSum_quiet; assumption.
+      * eapply (SnSum_slot cfg s _ _ mid); [exact HW|exact H1|exact H3|reflexivity| |].
+        -- intros a b c i e E. discriminate E.
+        -- intros. apply H2, HW.
+Qed.
+
+(* ================================================================== one broker packet *)
+
+Definition MqSum (cfg : gw_cfg) (s : gw_state) (m : mq_pkt) (r : R) : Prop :=
+  W (st_of r) /\
+  (forall i u, CP s i u -> m <> MqPuback i ->
+     (forall a q b c e, m = MqPublish a q b c i e -> q <> 1 /\ q <> 2) -> CP (st_of r) i u) /\
+  (forall i u, CS s i u -> (forall cs, m <> MqSuback i cs) ->
+     (forall a q b c e, m = MqPublish a q b c i e -> q <> 1 /\ q <> 2) -> CS (st_of r) i u) /\
+  (forall i q u, BP cfg s i q u -> (forall a q' b c e, m <> MqPublish a q' b c i e) -> BP cfg (st_of r) i q u) /\
+  (forall a1 q a3 a4 a5 i a7, (exists a q' b c j e, m = MqPublish a q' b c j e) ->
+     In (Publish a1 q a3 a4 a5 i a7) (SN (outs_of r)) -> q = 1 \/ q = 2 ->
+     BP cfg (st_of r) i q (gw_now s + (retry_count cfg + 1) * retry_delay cfg)).
+
+Definition mq_not_pub (m : mq_pkt) : Prop := match m with MqPublish _ _ _ _ _ _ => False | _ => True end.
+
+Lemma MqSum_X0 cfg s m r : W s -> mq_not_pub m -> FWR X0 s r -> MqSum cfg s m r.
+Proof.
+  intros HW Hnp HF. destruct (HF HW) as [HW' HFR]. split; [exact HW'|]. split; [|split; [|split]].
+  - intros i u HC _ _. eapply CP_FR; [exact HFR|exact HC|intros g _ []].
+  - intros i u HC _ _. eapply CS_FR; [exact HFR|exact HC|intros g _ []].
+  - intros i q u HC _. eapply BP_FR; [exact HFR|exact HC|intros g _ []].
+  - intros a1 q a3 a4 a5 i a7 (a & q' & b & c' & j & e & E) _ _. subst m. contradiction.
+Qed.
+
+Lemma MqSum_ack cfg s m r mid g0 t0 :
+  W s -> mq_ack_mid m = Some mid -> get_by_id s mid = Some (g0, t0) -> mq_ack_txn m t0 ->
+  FWR (Xobj g0) s r -> MqSum cfg s m r.
+Proof.
+  intros HW Hmid Hg Hk HF. destruct (HF HW) as [HW' HFR]. apply get_by_id_held in Hg.
+  pose proof (W_held_mid s mid g0 t0 HW Hg) as Hm0. destruct Hg as [Hg1 Hg2].
+  split; [exact HW'|]. split; [|split; [|split]].
+  - intros i u HC Hn1 _. eapply CP_FR; [exact HFR|exact HC|].
+    intros g Hs Hx. unfold Xobj in Hx. subst g.
+    destruct HC as (g & tid & [H1 H2] & _). assert (g = g0) by congruence. subst g.
+    rewrite H2 in Hg2. injection Hg2 as <-. cbn in Hm0. injection Hm0 as <-.
+    destruct m; cbn in Hmid, Hk; try discriminate Hmid; try contradiction.
+    injection Hmid as ->. apply Hn1. reflexivity.
+  - intros i u HC Hn1 _. eapply CS_FR; [exact HFR|exact HC|].
+    intros g Hs Hx. unfold Xobj in Hx. subst g.
+    destruct HC as (g & tid & [H1 H2] & _). assert (g = g0) by congruence. subst g.
+    rewrite H2 in Hg2. injection Hg2 as <-. cbn in Hm0. injection Hm0 as <-.
+    destruct m; cbn in Hmid, Hk; try discriminate Hmid; try contradiction.
+    injection Hmid as ->. eapply Hn1. reflexivity.
+  - intros i q u HC _. eapply BP_FR; [exact HFR|exact HC|].
+    intros g Hs Hx. unfold Xobj in Hx. subst g.
+    destruct HC as (g & d' & sp' & n' & sq & T & [H1 H2] & _). assert (g = g0) by congruence. subst g.
+    rewrite H2 in Hg2. injection Hg2 as <-.
+    destruct m; cbn in Hmid, Hk; try discriminate Hmid; try contradiction.
+    destruct (bst_cases q) as [E|E]; rewrite E in Hk; discriminate Hk.
+  - intros a1 q a3 a4 a5 i a7 (a & q' & b & c' & j & e & E) _ _. subst m. discriminate Hmid.
+Qed.
+
+Lemma handle_mq_summary cfg s m : W s -> wf_mq m -> MqSum cfg s m (handle_mq cfg s m).
+Proof.
+  intros HW Hwf.
+  destruct (match m with MqPublish _ _ _ _ _ _ => true | _ => false end) eqn:Ep.
+  - destruct m as [c|sp rc|dup qos retain topic mid payload|mid|mid|mid|mid|mid dup fs|mid codes|mid fs|mid| | |];
+      try discriminate Ep.
+    cbn [wf_mq] in Hwf. destruct Hwf as (Hq & _ & _ & Hmid & _). cbn [handle_mq].
+    destruct (handle_broker_publish_spec cfg s dup qos retain topic mid payload Hq Hmid) as [HF HB].
+    destruct (HF HW) as [HW' HFR]. split; [exact HW'|]. split; [|split; [|split]].
+    + intros i u HC _ Hp. eapply CP_FR; [exact HFR|exact HC|]. intros g _ [-> Hx].
+      destruct (Hp _ _ _ _ _ eq_refl). lia.
+    + intros i u HC _ Hp. eapply CS_FR; [exact HFR|exact HC|]. intros g _ [-> Hx].
+      destruct (Hp _ _ _ _ _ eq_refl). lia.
+    + intros i q u HC Hp. eapply BP_FR; [exact HFR|exact HC|]. intros g _ [-> Hx].
+      eapply Hp. reflexivity.
+    + intros a1 q a3 a4 a5 i a7 _ Hin Hq12. eapply HB; eassumption.
+  - assert (Hnp : mq_not_pub m) by (destruct m; try exact I; discriminate Ep).
+    destruct (handle_mq_fw cfg s m Hnp) as [HF|(mid' & g0 & t0 & Hmid & Hg & Hk & HF)].
+    + apply MqSum_X0; assumption.
+    + eapply MqSum_ack; eassumption.
+Qed.
+
+(* ================================================================== gw_step *)
+
+Lemma finish_r_W r a b : W (st_of r) -> W (fst (finish_r r a b)) /\ FR X0 (st_of r) (fst (finish_r r a b)).
+Proof. intros HW. apply (finish_r_fw X0 (st_of r) r a b (FW_refl X0 (st_of r)) HW). Qed.
+
+Lemma begin_end_SN s c a b : forall p, In p (SN (snd (begin_end s c a b))) -> p = Disconnect 0.
+Proof.
+  intros p. unfold begin_end. cbn [snd]. rewrite SN_cons_cancel.
+  destruct (gw_st s).
+  1,3: intros H; rewrite SN_nil in H; destruct H.
+  all: rewrite SN_cons_sn, read_disconnect0, SN_nil; cbn; intros [<-|[]]; reflexivity.
+Qed.
+
+Lemma finish_r_SN_in r a b p : In p (SN (outs_of r)) -> In p (SN (snd (finish_r r a b))).
+Proof.
+  destruct r as [[s o] [|c]]; cbn [finish_r outs_of fst snd]; [auto|].
+  destruct (begin_end s c a b) as [s' o']. cbn [snd]. rewrite SN_app. intros H. apply in_or_app. left. exact H.
+Qed.
+
+Lemma finish_r_SN_publish r a b a1 a2 a3 a4 a5 a6 a7 :
+  In (Publish a1 a2 a3 a4 a5 a6 a7) (SN (snd (finish_r r a b))) -> In (Publish a1 a2 a3 a4 a5 a6 a7) (SN (outs_of r)).
+Proof.
+  destruct r as [[s o] [|c]]; cbn [finish_r outs_of fst snd]; [auto|].
+  pose proof (begin_end_SN s c a b) as Hb. destruct (begin_end s c a b) as [s' o']. cbn [snd] in *.
+  rewrite SN_app. intros H. apply in_app_or in H. destruct H as [H|H]; [exact H|].
+  specialize (Hb _ H). discriminate Hb.
+Qed.
+
+Lemma running_mono cfg s ev : running s = false -> running (fst (gw_step cfg s ev)) = false.
+Proof.
+  intros Hr. unfold gw_step. destruct (gw_ended s) eqn:Ee; [exact Hr|].
+  destruct (gw_ending s) as [te|] eqn:Eg; [|unfold running in Hr; rewrite Ee, Eg in Hr; discriminate Hr].
+  destruct ev as [dg|m| | |d|]; try exact Hr.
+  pose proof (run_timers_ending cfg (gw_now s + d) (advance_fuel cfg s d) s te Eg) as H.
+  destruct (run_timers (advance_fuel cfg s d) cfg s (gw_now s + d)) as [s' o]. cbn [fst] in *.
+  destruct (gw_ended s'); exact H.
+Qed.
+
+Lemma finish_r_stop_running s o c a b : running (fst (finish_r (stop s o c) a b)) = false.
+Proof. unfold stop, finish_r, begin_end, running. cbn. apply andb_false_r. Qed.
+
+Lemma step_other_stops cfg s ev :
+  match ev with EvMqRaw | EvMqEof | EvShutdown => True | _ => False end ->
+  running (fst (gw_step cfg s ev)) = false.
+Proof.
+  intros Hev. destruct (running s) eqn:Hr; [|apply running_mono, Hr].
+  apply running_spec in Hr. destruct Hr as [He Hg]. unfold gw_step. rewrite He.
+  destruct ev; try contradiction; rewrite Hg; apply finish_r_stop_running.
+Qed.
+
+Lemma CP_sm s s' i u : sm s s' -> CP s i u -> CP s' i u.
+Proof. intros H HC. eapply CP_FR; [apply (FR_sm X0), H|exact HC|intros g _ []]. Qed.
+Lemma CS_sm s s' i u : sm s s' -> CS s i u -> CS s' i u.
+Proof. intros H HC. eapply CS_FR; [apply (FR_sm X0), H|exact HC|intros g _ []]. Qed.
+Lemma BP_sm cfg s s' i q u : sm s s' -> BP cfg s i q u -> BP cfg s' i q u.
+Proof. intros H HC. eapply BP_FR; [apply (FR_sm X0), H|exact HC|intros g _ []]. Qed.
+
+Theorem step_sn cfg s dg :
+  W s -> running s = true -> wf_bytes dg ->
+  W (fst (gw_step cfg s (EvSn dg))) /\
+  (forall i u, CP s i u -> ~ In i (MQ (snd (gw_step cfg s (EvSn dg))) ≫= cstart) -> CP (fst (gw_step cfg s (EvSn dg))) i u) /\
+  (forall i u, CS s i u -> ~ In i (MQ (snd (gw_step cfg s (EvSn dg))) ≫= cstart) -> CS (fst (gw_step cfg s (EvSn dg))) i u) /\
+  (forall i q u, BP cfg s i q u -> ~ In i (MQ (snd (gw_step cfg s (EvSn dg))) ≫= cstart) ->
+     (forall a c, read_dgram dg <> Ok (Puback a i c)) -> read_dgram dg <> Ok (Pubrec i) ->
+     BP cfg (fst (gw_step cfg s (EvSn dg))) i q u) /\
+  (forall a b c i e, In (MqPublish a 1 b c i e) (MQ (snd (gw_step cfg s (EvSn dg)))) ->
+     CP (fst (gw_step cfg s (EvSn dg))) i (gw_now s + retry_delay cfg)) /\
+  (forall i d fs, In (MqSubscribe i d fs) (MQ (snd (gw_step cfg s (EvSn dg)))) ->
+     CS (fst (gw_step cfg s (EvSn dg))) i (gw_now s + retry_delay cfg)) /\
+  (forall a b c a1 q a3 a4 a5 i a7, read_dgram dg = Ok (Regack a b c) ->
+     In (Publish a1 q a3 a4 a5 i a7) (SN (snd (gw_step cfg s (EvSn dg)))) -> q = 1 \/ q = 2 ->
+     BP cfg (fst (gw_step cfg s (EvSn dg))) i q (gw_now s + (retry_count cfg + 1) * retry_delay cfg)).
+Proof.
+  intros HW Hr Hwf. apply running_spec in Hr. destruct Hr as [He Hg].
+  set (s1 := s <| gw_last_sn := gw_now s |>).
+  assert (Hsm : sm s s1) by (subst s1; sm_tac).
+  assert (HW1 : W s1) by (eapply W_sm; eassumption).
+  destruct (read_dgram dg) as [p|err|pps] eqn:Hrd.
+  - rewrite (gw_step_sn cfg s dg p He Hg Hrd). fold s1.
+    pose proof (read_dgram_dec6 dg p Hwf Hrd) as Hd6.
+    destruct (handle_sn_summary cfg s1 p HW1 Hd6) as (S1 & S2 & S3 & S4 & S5 & S6).
+    pose proof (handle_sn_regack_BP cfg s1) as S7.
+    set (r := handle_sn cfg s1 p) in *.
+    destruct (finish_r_W r true false S1) as [HW' HFR].
+    rewrite (finish_r_MQ r true false).
+    split; [exact HW'|]. split; [|split; [|split; [|split; [|split]]]].
+    + intros i u HC Hn. eapply CP_FR; [exact HFR| |intros g _ []]. apply S2; [eapply CP_sm; eassumption|exact Hn].
+    + intros i u HC Hn. eapply CS_FR; [exact HFR| |intros g _ []]. apply S3; [eapply CS_sm; eassumption|exact Hn].
+    + intros i q u HC Hn Hp1 Hp2. eapply BP_FR; [exact HFR| |intros g _ []].
+      apply S4; [eapply BP_sm; eassumption|exact Hn| |].
+      * intros a c E. apply (Hp1 a c). rewrite E. reflexivity.
+      * intros E. apply Hp2. rewrite E. reflexivity.
+    + intros a b c i e Hin. eapply CP_FR; [exact HFR| |intros g _ []]. eapply S5. exact Hin.
+    + intros i d fs Hin. eapply CS_FR; [exact HFR| |intros g _ []]. eapply S6. exact Hin.
+    + intros a b c a1 q a3 a4 a5 i a7 E Hin Hq. injection E as ->.
+      apply finish_r_SN_publish in Hin. eapply BP_FR; [exact HFR| |intros g _ []].
+      subst r. eapply (S7 a b c HW1). exact Hin. exact Hq.
+  - assert (Hstep : gw_step cfg s (EvSn dg) = finish_r (stop s1 [] EcDecodeError) true false)
+      by (unfold gw_step; rewrite He, Hg, Hrd; reflexivity).
+    rewrite Hstep. destruct (finish_r_W (stop s1 [] EcDecodeError) true false HW1) as [HW' HFR].
+    rewrite finish_r_MQ. cbn [outs_of stop fst snd]. change (st_of (stop s1 [] EcDecodeError)) with s1 in HFR.
+    split; [exact HW'|]. split; [|split; [|split; [|split; [|split]]]].
+    + intros i u HC _. eapply CP_FR; [exact HFR|eapply CP_sm; eassumption|intros g _ []].
+    + intros i u HC _. eapply CS_FR; [exact HFR|eapply CS_sm; eassumption|intros g _ []].
+    + intros i q u HC _ _ _. eapply BP_FR; [exact HFR|eapply BP_sm; eassumption|intros g _ []].
+    + intros a b c i e [].
+    + intros i d fs [].
+    + intros a b c a1 q a3 a4 a5 i a7 E. discriminate E.
+  - assert (Hstep : gw_step cfg s (EvSn dg) = finish_r (stop s1 [] EcDecodeError) true false)
+      by (unfold gw_step; rewrite He, Hg, Hrd; reflexivity).
+    rewrite Hstep. destruct (finish_r_W (stop s1 [] EcDecodeError) true false HW1) as [HW' HFR].
+    rewrite finish_r_MQ. cbn [outs_of stop fst snd]. change (st_of (stop s1 [] EcDecodeError)) with s1 in HFR.
+    split; [exact HW'|]. split; [|split; [|split; [|split; [|split]]]].
+    + intros i u HC _. eapply CP_FR; [exact HFR|eapply CP_sm; eassumption|intros g _ []].
+    + intros i u HC _. eapply CS_FR; [exact HFR|eapply CS_sm; eassumption|intros g _ []].
+    + intros i q u HC _ _ _. eapply BP_FR; [exact HFR|eapply BP_sm; eassumption|intros g _ []].
+    + intros a b c i e [].
+    + intros i d fs [].
+    + intros a b c a1 q a3 a4 a5 i a7 E. discriminate E.
+Qed.
+
+Theorem step_mq cfg s m :
+  W s -> running s = true -> wf_mq m ->
+  W (fst (gw_step cfg s (EvMq m))) /\
+  (forall i u, CP s i u -> m <> MqPuback i ->
+     (forall a q b c e, m = MqPublish a q b c i e -> q <> 1 /\ q <> 2) -> CP (fst (gw_step cfg s (EvMq m))) i u) /\
+  (forall i u, CS s i u -> (forall cs, m <> MqSuback i cs) ->
+     (forall a q b c e, m = MqPublish a q b c i e -> q <> 1 /\ q <> 2) -> CS (fst (gw_step cfg s (EvMq m))) i u) /\
+  (forall i q u, BP cfg s i q u -> (forall a q' b c e, m <> MqPublish a q' b c i e) ->
+     BP cfg (fst (gw_step cfg s (EvMq m))) i q u) /\
+  (forall a1 q a3 a4 a5 i a7, (exists a q' b c j e, m = MqPublish a q' b c j e) ->
+     In (Publish a1 q a3 a4 a5 i a7) (SN (snd (gw_step cfg s (EvMq m)))) -> q = 1 \/ q = 2 ->
+     BP cfg (fst (gw_step cfg s (EvMq m))) i q (gw_now s + (retry_count cfg + 1) * retry_delay cfg)).
+Proof.
+  intros HW Hr Hwf. apply running_spec in Hr. destruct Hr as [He Hg].
+  rewrite (gw_step_mq cfg s m He Hg).
+  set (s1 := s <| gw_last_mq := gw_now s |>).
+  assert (Hsm : sm s s1) by (subst s1; sm_tac).
+  assert (HW1 : W s1) by (eapply W_sm; eassumption).
+  destruct (handle_mq_summary cfg s1 m HW1 Hwf) as (S1 & S2 & S3 & S4 & S5).
+  set (r := handle_mq cfg s1 m) in *.
+  destruct (finish_r_W r false true S1) as [HW' HFR].
+  split; [exact HW'|]. split; [|split; [|split]].
+  - intros i u HC H1 H2. eapply CP_FR; [exact HFR| |intros g _ []]. apply S2; [eapply CP_sm; eassumption|exact H1|exact H2].
+  - intros i u HC H1 H2. eapply CS_FR; [exact HFR| |intros g _ []]. apply S3; [eapply CS_sm; eassumption|exact H1|exact H2].
+  - intros i q u HC H1. eapply BP_FR; [exact HFR| |intros g _ []]. apply S4; [eapply BP_sm; eassumption|exact H1].
+  - intros a1 q a3 a4 a5 i a7 Hm Hin Hq. apply finish_r_SN_publish in Hin.
+    eapply BP_FR; [exact HFR| |intros g _ []]. eapply S5; eassumption.
+Qed.
+
+Theorem step_adv cfg s d :
+  W s ->
+  W (fst (gw_step cfg s (EvAdvance d))) /\
+  (forall i u, gw_now s + d < u -> CP s i u -> CP (fst (gw_step cfg s (EvAdvance d))) i u) /\
+  (forall i u, gw_now s + d < u -> CS s i u -> CS (fst (gw_step cfg s (EvAdvance d))) i u) /\
+  (forall i q u, gw_now s + d < u -> BP cfg s i q u -> BP cfg (fst (gw_step cfg s (EvAdvance d))) i q u).
+Proof.
+  intros HW. unfold gw_step. destruct (gw_ended s); [apply (EPres_FW cfg _ s s HW (FW_refl X0 s))|].
+  pose proof (run_timers_pres cfg (gw_now s + d) (advance_fuel cfg s d) s HW) as H.
+  destruct (run_timers (advance_fuel cfg s d) cfg s (gw_now s + d)) as [s' o]. cbn [fst] in *.
+  destruct (gw_ended s'); [exact H|].
+  eapply EPres_trans; [exact H|]. apply EPres_FW; [exact (proj1 H)|]. apply FW_sm. sm_tac.
+Qed.
+
+Theorem step_W cfg s ev : wf_event ev -> W s -> W (fst (gw_step cfg s ev)).
+Proof.
+  intros Hev HW. destruct (running s) eqn:Hr.
+  - destruct ev as [dg|m| | |d|].
+    + apply (step_sn cfg s dg HW Hr (proj1 Hev)).
+    + apply (step_mq cfg s m HW Hr Hev).
+    + apply running_spec in Hr. destruct Hr as [He Hg]. unfold gw_step. rewrite He, Hg.
+      apply finish_r_W. cbn. eapply W_sm; [|exact HW]. sm_tac.
+    + apply running_spec in Hr. destruct Hr as [He Hg]. unfold gw_step. rewrite He, Hg.
+      apply finish_r_W. exact HW.
+    + apply (step_adv cfg s d HW).
+    + apply running_spec in Hr. destruct Hr as [He Hg]. unfold gw_step. rewrite He, Hg.
+      apply finish_r_W. exact HW.
+  - destruct ev as [dg|m| | |d|]; try apply (step_adv cfg s d HW).
+    all: unfold gw_step; destruct (gw_ended s) eqn:Ee; [exact HW|];
+         destruct (gw_ending s) eqn:Eg; [exact HW|]; unfold running in Hr; rewrite Ee, Eg in Hr; discriminate Hr.
+Qed.
+
+(* the broker's acknowledgements are relayed to a client that is not asleep *)
+Theorem step_mq_puback_relay cfg s i u :
+  W s -> running s = true -> gw_st s <> Asleep -> i < 65536 -> CP s i u ->
+  exists tid, In (Puback tid i RC_ACCEPTED) (SN (snd (gw_step cfg s (EvMq (MqPuback i))))).
+Proof.
+  intros HW Hr Hst Hi HC. apply running_spec in Hr. destruct Hr as [He Hg].
+  rewrite (gw_step_mq cfg s _ He Hg). set (s1 := s <| gw_last_mq := gw_now s |>).
+  assert (Hsm : sm s s1) by (subst s1; sm_tac).
+  destruct (handle_mq_puback_relay cfg s1 i u (W_sm _ _ Hsm HW) Hst Hi (CP_sm _ _ _ _ Hsm HC)) as [tid E].
+  exists tid. apply finish_r_SN_in. rewrite E. left. reflexivity.
+Qed.
+
+Theorem step_mq_suback_relay cfg s i u c :
+  Sound_C01C03_aux.Inv s -> running s = true -> gw_st s <> Asleep -> i < 65536 -> CS s i u ->
+  exists q tid rc, In (Suback q tid i rc) (SN (snd (gw_step cfg s (EvMq (MqSuback i [c]))))).
+Proof.
+  intros HI Hr Hst Hi HC. apply running_spec in Hr. destruct Hr as [He Hg].
+  rewrite (gw_step_mq cfg s _ He Hg). set (s1 := s <| gw_last_mq := gw_now s |>).
+  assert (Hsm : sm s s1) by (subst s1; sm_tac).
+  assert (HI1 : Sound_C01C03_aux.Inv s1) by (subst s1; eapply Inv_same; [..|exact HI]; reflexivity).
+  destruct (handle_mq_suback_relay cfg s1 i u c HI1 Hst Hi (CS_sm _ _ _ _ Hsm HC)) as (q & tid & rc & E).
+  exists q, tid, rc. apply finish_r_SN_in. rewrite E. left. reflexivity.
+Qed.
+
+(* the store facts the monitor's entries stand for give the context of C16's clauses 7 and 8 *)
+Lemma BP_get cfg s i q u : BP cfg s i q u -> exists g d sp n, get_by_id s i = Some (g, TxBrokerPub i q (bst q) d sp n).
+Proof. intros (g & d & sp & n & sq & T & Hh & _). exists g, d, sp, n. apply held_get_by_id, Hh. Qed.
